@@ -51,7 +51,7 @@ let explore_model (p : params) (scen : string list) (seed : int) (runs : int) : 
     incr r;
     (match scen with
      | ["lock"; k; n; it] ->
-       let kind = (match k with "spin" -> KSpin | "sync" -> KSync | _ -> KMutex) in
+       let kind = (match k with "spin" -> KSpin | "sync" -> KSync | "try" -> KTry | _ -> KMutex) in
        let n = int_of_string n in
        try_run (lstep p true) (linit kind (nat_of_int n) (nat_of_int (int_of_string it))) n
          (fun st -> if int_of_nat (l_overlaps st) > 0 then Some "two holders at once in the model"
@@ -84,7 +84,7 @@ let handle (lines : string list) : unit =
   | None ->
   match !scen with
   | ["lock"; k; n; it] ->
-    let kind = (match k with "spin" -> KSpin | "sync" -> KSync | _ -> KMutex) in
+    let kind = (match k with "spin" -> KSpin | "sync" -> KSync | "try" -> KTry | _ -> KMutex) in
     let n = int_of_string n in
     let st0 = linit kind (nat_of_int n) (nat_of_int (int_of_string it)) in
     let step = lstep params true in
